@@ -300,14 +300,17 @@ def ob_aggregated(imp, agg, k, batch, npts):
     def run(ob):
         fl = install()
         set_mode("R")
-        I, A = getattr(fl, imp)(), getattr(fl, agg)()
+        # "Asymmetric": a user-defined implication (public NormLambda) that treats its operands differently - degree first, membership second
+        I = fl.NormLambda(lambda a, b: 0.25 * a + 0.5 * b) if imp == "Asymmetric" else getattr(fl, imp)()
+        A = getattr(fl, agg)()
         B = 2 if batch else 1
         degs = [[rvar(f"d{j}_{b}") for b in range(B)] for j in range(k)]
         mus = [[rvar(f"m{j}_{i}") for i in range(npts)] for j in range(k)]
         pre = [unit(v) for row in degs for v in row] + [unit(v) for row in mus for v in row]
         ins = {f"d{j}_{b}": degs[j][b] for j in range(k) for b in range(B)}
         ins.update({f"m{j}_{i}": mus[j][i] for j in range(k) for i in range(npts)})
-        fi, fa = nspec.TNORMS[imp], nspec.SNORMS[agg]
+        fi, fa = (lambda a, b: 0.25 * a + 0.5 * b) if imp == "Asymmetric" else nspec.TNORMS[imp], nspec.SNORMS[agg]
+        py_imp = "0.25 * a + 0.5 * b" if imp == "Asymmetric" else nspec.PY[imp]
 
         def body():
             terms = [make_term(fl, [mus[j]]) for j in range(k)]
@@ -321,10 +324,10 @@ def ob_aggregated(imp, agg, k, batch, npts):
                 "class Fixed(fl.Term):\n    def __init__(self, ys): super().__init__('t'); self.ys = ys\n    def membership(self, x): return np.array(self.ys, dtype=float)",
                 f"degs = {lit([[v[f'd{j}_{b}'] for b in range(B)] for j in range(k)])}",
                 f"mus = {lit([[v[f'm{j}_{i}'] for i in range(npts)] for j in range(k)])}",
-                f"I, A = fl.{imp}(), fl.{agg}()",
+                f"I, A = {'fl.NormLambda(lambda a, b: 0.25 * a + 0.5 * b)' if imp == 'Asymmetric' else 'fl.' + imp + '()'}, fl.{agg}()",
                 f"acts = [fl.Activated(Fixed(mus[j]), {'np.array(degs[j])' if batch else 'degs[j][0]'}, I) for j in range({k})]",
                 "got = np.atleast_2d(fl.Aggregated('out', 0.0, 1.0, A, acts).membership(np.zeros((1, %d))))" % npts,
-                f"fi = lambda a, b: {nspec.PY[imp]}", f"fa = lambda a, b: {nspec.PY[agg]}",
+                f"fi = lambda a, b: {py_imp}", f"fa = lambda a, b: {nspec.PY[agg]}",
                 "exp = []",
                 f"for b in range({B}):\n    row = []\n    for i in range({npts}):\n        y = 0.0\n        for j in range({k}):\n            y = fa(y, fi(degs[j][b], mus[j][i]))\n        row.append(y)\n    exp.append(row)",
                 f"verdict(not same(got, exp, 1e-9), '{agg}[{imp}] aggregated membership %r, documented %r' % (got.tolist(), exp))"])
@@ -384,6 +387,10 @@ def _obligations(tier, seed):
                     if batch and k == 1 and tier == "quick":
                         continue
                     obs.append((f"aggregated/{imp}/{agg}/k{k}/{'batch' if batch else 'scalar'}", ob_aggregated(imp, agg, k, batch, npts)))
+    for agg in ("Maximum", "UnboundedSum"):
+        for k in (1, 2):
+            for batch in (False, True):
+                obs.append((f"aggregated/Asymmetric/{agg}/k{k}/{'batch' if batch else 'scalar'}", ob_aggregated("Asymmetric", agg, k, batch, npts)))
     return obs
 
 
